@@ -1,10 +1,14 @@
 (* C13 -- File-like memory views behave as bounded files and stay in their region.
    Property theorems only; each is closed by `exact` of a lemma of Proofs/MemIO.v or
    Proofs/MemIORefine.v.  The model (Model/MemIO.v) is SlicedMemoryIO/MemoryIO as the code is now,
-   i.e. after the repairs 78ea6ba (read/write with the cursor outside the view) and 7cc6906
-   (__getitem__ guarded by _if_not_closed); `*_orig` is the code as found.  The tie between model
-   and code is the correspondence run of harness/c13.py (every return value, warning count,
-   exception class, controller access, tell() after each operation, final memory).
+   i.e. after the repairs 78ea6ba (read/write with the cursor outside the view), 7cc6906
+   (__getitem__ guarded by _if_not_closed) and f46cca6 (no TruncationWarning unless bytes are cut);
+   `*_orig` is the code as found.  Tie T: the model CALLS Generated/GenMemIO.v, the cursor and clamping
+   arithmetic of address/__len__/__init__/seek/read/write/__getitem__/sdram_alloc_as_filelike
+   re-translated from the source text on every run by tools/dump_c13.py (which also checks the
+   surrounding statements literally), so these theorems are re-proved against the current text.  Tie C:
+   the correspondence run of harness/c13.py (every return value, warning count, exception class,
+   controller access, tell() after each operation, final memory).
 
    Quantification: every theorem is over ALL histories (lists of operations of any length: seek
    with any offset and any `from_what`, read with any count, write of any bytes, slices with any
@@ -13,7 +17,7 @@
    raises or with TruncationWarning turned into an exception), over every base address and
    length, over every memory content. *)
 From Coq Require Import ZArith List Bool.
-Require Import Rig.Model.Base Rig.Model.MemIO Rig.Spec.MemIO Rig.Proofs.MemIO Rig.Proofs.MemIORefine.
+Require Import Rig.Generated.GenMemIO Rig.Model.Base Rig.Model.MemIO Rig.Spec.MemIO Rig.Proofs.MemIO Rig.Proofs.MemIORefine.
 Import ListNotations.
 Open Scope Z_scope.
 
@@ -40,6 +44,30 @@ Theorem C13_confined_to_allocation :
     | _ => call_within s (Z.max s e) c
     end.
 Proof. exact allocation_confined. Qed.
+
+(* The memory outside the allocation is never changed, whatever the history. *)
+Theorem C13_memory_outside_untouched :
+  forall s e m ops x, ~ (s <= x < Z.max s e) -> st_mem (run (init s e m) ops) x = m x.
+Proof. exact memory_outside_untouched. Qed.
+
+(* The entry point MachineController.sdram_alloc_as_filelike(size, ...) returns
+   MemoryIO(self, x, y, start, start + size) for the block sdram_alloc gave it (shape and the
+   expression start + size re-extracted by the dumper): one open view of exactly `size` bytes at cursor 0,
+   and whatever is done with it and its slices stays inside [start, start + size). *)
+Theorem C13_filelike_confined :
+  forall start size m ops st o out c, 0 <= size ->
+    In (st, o, out) (trace (alloc_as_filelike start size m) ops) -> In c (o_calls out) ->
+    match c with
+    | CFree a => a = start
+    | _ => call_within start (start + size) c
+    end.
+Proof. exact filelike_confined. Qed.
+
+Theorem C13_filelike_view :
+  forall start size m, 0 <= size ->
+    exists v, st_views (alloc_as_filelike start size m) = [v]
+              /\ v_start v = start /\ vlen v = size /\ v_off v = 0 /\ dead false v = false.
+Proof. exact filelike_len. Qed.
 
 (* ---- The views behave like one fixed-length file --------------------------------------------- *)
 
@@ -76,8 +104,7 @@ Proof. exact read_after_write. Qed.
 
 (* read(n), n >= 0, on a live view: k bytes are returned (those at the cursor), 0 <= k <= n, the cursor
    advances by k; with the cursor at or after 0, k = max(0, min(n, len - cursor)); before 0, k = 0;
-   fewer than n bytes => at least one warning; and with the cursor inside [0, len], a warning only if
-   fewer than n bytes. *)
+   a warning is given if AND ONLY IF fewer than n bytes are returned (so read(0) never warns). *)
 Theorem C13_truncation_warned_read :
   forall m v n v' out, 0 <= n -> read m v n = (v', out) ->
     exists k, o_res out = Ok (VBytes (mem_read m (address v) k)) /\ zlen (mem_read m (address v) k) = k
@@ -85,21 +112,21 @@ Theorem C13_truncation_warned_read :
       /\ v_off v' = v_off v + k
       /\ (0 <= v_off v -> k = Z.max 0 (Z.min n (vlen v - v_off v)))
       /\ (v_off v < 0 -> k = 0)
-      /\ (k < n -> 0 < o_warns out)
-      /\ (0 <= v_off v <= vlen v -> 0 < o_warns out -> k < n).
+      /\ (k < n <-> 0 < o_warns out).
 Proof. exact read_truncation. Qed.
 
 (* read() / read(n < 0): everything from the cursor to the end when the cursor is inside [0, len],
-   nothing otherwise *)
+   nothing otherwise; no warning unless the cursor is before position 0 *)
 Theorem C13_read_default :
   forall m v n v' out, n < 0 -> read m v n = (v', out) ->
     let k := if (0 <=? v_off v) && (v_off v <=? vlen v) then vlen v - v_off v else 0 in
-    o_res out = Ok (VBytes (mem_read m (address v) k)) /\ v_off v' = v_off v + k.
+    o_res out = Ok (VBytes (mem_read m (address v) k)) /\ v_off v' = v_off v + k
+    /\ (0 <= v_off v -> o_warns out <= 0).
 Proof. exact read_default. Qed.
 
 (* write(bs): k bytes (the first k of bs) are written at the cursor in one controller call (none if
-   k = 0), k is returned and the cursor advances by k; k as for read; fewer than len(bs) bytes => at
-   least one warning; with the cursor inside [0, len] a warning only if fewer. *)
+   k = 0), k is returned and the cursor advances by k; k as for read; a warning is given if AND ONLY IF
+   fewer than len(bs) bytes are written (so write(b'') never warns, nor raises under the `error` filter). *)
 Theorem C13_truncation_warned_write :
   forall v bs v' out, write v bs = (v', out) ->
     exists k, o_res out = Ok (VInt k)
@@ -108,8 +135,7 @@ Theorem C13_truncation_warned_write :
       /\ o_calls out = (if 0 <? k then [CWrite (address v) (firstn (Z.to_nat k) bs)] else [])
       /\ (0 <= v_off v -> k = Z.max 0 (Z.min (zlen bs) (vlen v - v_off v)))
       /\ (v_off v < 0 -> k = 0)
-      /\ (k < zlen bs -> 0 < o_warns out)
-      /\ (0 <= v_off v <= vlen v -> 0 < o_warns out -> k < zlen bs).
+      /\ (k < zlen bs <-> 0 < o_warns out).
 Proof. exact write_truncation. Qed.
 
 (* ---- A transfer that fails transfers nothing: the position does not move ----------------------- *)
